@@ -57,7 +57,7 @@ def main():
         "hooks": {
             "guard": "olegnn_join_verif",
             "enable": "no hooks needed: the harness links /repo/join_impl as a library (path dependency) and compiles the public macros of /repo/join",
-            "baseline_off_cmd": "cd /repo && cargo test --workspace --no-fail-fast --offline",
+            "baseline_off_cmd": "cd /repo && cargo test --workspace --no-fail-fast --offline --lib --tests",
             "source_commits": [],
             "add_only": True,
         },
